@@ -90,11 +90,29 @@ def gen_assembly(rng: random.Random, max_blocks: int, jitter: bool = True) -> di
     blocks = []
     for c in cells:
         blocks.append({"cell": list(c), "rot": rng.randrange(24)})
-    return {
+    asm = {
         "blocks": blocks,
         "jitter": {f"{i},{j},{k}": v for (i, j, k), v in jit.items()},
         "scale": scale,
     }
+    add_arcs(rng, asm)
+    return asm
+
+
+def add_arcs(rng: random.Random, asm: dict, prob: float = 0.35) -> None:
+    """Curves a few block edges: an Arc whose third point is the edge's mid point pushed sideways."""
+    arcs = []
+    if rng.random() < prob:
+        edges = set()
+        for blk in asm["blocks"]:
+            cs = block_corners(asm, blk)
+            for a in range(3):
+                for p in AXIS_PAIRS[a]:
+                    edges.add(tuple(sorted((cs[p[0]], cs[p[1]]))))
+        edges = sorted(edges)
+        for e in rng.sample(edges, min(len(edges), rng.randint(1, 3))):
+            arcs.append({"edge": [list(e[0]), list(e[1])], "bulge": [rng.choice([-0.3, -0.15, 0.15, 0.3]) for _ in range(3)]})
+    asm["arcs"] = arcs
 
 
 def lattice_point(asm: dict, ijk: Tuple[int, int, int]) -> List[float]:
@@ -196,6 +214,7 @@ def gen_sandwich(rng: random.Random) -> dict:
             for k in range(dims[2] + 1):
                 jit[f"{i},{j},{k}"] = [rng.randint(-8, 8) / 64 for _ in range(3)]
     asm = {"blocks": blocks, "jitter": jit, "scale": [rng.choice([1.0, 2.0]) for _ in range(3)]}
+    add_arcs(rng, asm)
     fam_of, members = families(asm)
     pos = {tuple(b["cell"]): i for i, b in enumerate(blocks)}
     outer = [pos[tuple(cells[0])], pos[tuple(cells[2])]]
@@ -248,6 +267,7 @@ def build_mesh(case: dict, order: Optional[List[int]] = None, rots: Optional[Lis
     asm = case["asm"]
     mesh = cb.Mesh()
     ops = []
+    done_arcs = set()
     idx = list(range(len(asm["blocks"]))) if order is None else order
     for b in idx:
         blk = dict(asm["blocks"][b])
@@ -256,6 +276,23 @@ def build_mesh(case: dict, order: Optional[List[int]] = None, rots: Optional[Lis
         cs = block_corners(asm, blk)
         pts = [lattice_point(asm, c) for c in cs]
         op = cb.Loft(cb.Face(pts[:4]), cb.Face(pts[4:]))
+        for ai, arc in enumerate(asm.get("arcs", [])):
+            e0, e1 = tuple(arc["edge"][0]), tuple(arc["edge"][1])
+            if ai in done_arcs:
+                continue
+            for c1 in range(8):
+                for c2 in range(8):
+                    if cs[c1] == e0 and cs[c2] == e1:
+                        p0, p1 = lattice_point(asm, e0), lattice_point(asm, e1)
+                        mid = [(p0[d] + p1[d]) / 2 + arc["bulge"][d] for d in range(3)]
+                        lo, hi = min(c1, c2), max(c1, c2)
+                        if hi - lo == 4:
+                            op.add_side_edge(lo, cb.Arc(mid))
+                        elif hi < 4:
+                            op.bottom_face.add_edge(lo if hi - lo == 1 else 3, cb.Arc(mid))
+                        else:
+                            op.top_face.add_edge((lo - 4) if hi - lo == 1 else 3, cb.Arc(mid))
+                        done_arcs.add(ai)
         ops.append((b, op, blk))
     for b, op, blk in ops:
         for ch in case["chops"]:
@@ -422,7 +459,10 @@ def read_internals(mesh) -> dict:
 def gp_sum(r: float, n: int) -> float:
     if abs(r - 1) < 1e-13:
         return float(n)
-    return (r**n - 1) / (r - 1)
+    try:
+        return (r**n - 1) / (r - 1)
+    except OverflowError:
+        return float("inf")
 
 
 def solve_r_for_start(L: float, n: int, s: float) -> float:
@@ -430,7 +470,7 @@ def solve_r_for_start(L: float, n: int, s: float) -> float:
     if n == 1:
         return 1.0
     f = lambda lr: s * gp_sum(math.exp(lr), n) - L
-    lo, hi = -20.0, 20.0
+    lo, hi = -12.0, 12.0
     for _ in range(200):
         mid = (lo + hi) / 2
         if f(mid) > 0:
@@ -535,6 +575,7 @@ def prepare(case: dict, order=None, rots=None):
     # a preserved size that does not fit on some edge of the family cannot be realised (the library raises)
     fam_of, members = families(asm)
     unreal = None
+    extreme = None
     for c in chops:
         if c["preserve"] == "c2c_expansion":
             continue
@@ -548,7 +589,14 @@ def prepare(case: dict, order=None, rots=None):
                 L = internals["lens"][4 * x2 + k] * c["ratio"]
                 if c["value"] >= L * (1 - 1e-6):
                     unreal = f"chop {c} does not fit on wire {4 * x2 + k} of length {L}"
+                elif c["count"] >= 2:
+                    r = solve_r_for_start(L, c["count"], c["value"])
+                    # the library brackets the total expansion within [TOL, 1/TOL]; one decade of margin
+                    if not -6 < (c["count"] - 1) * math.log10(r) < 6:
+                        extreme = f"chop {c} on wire {4 * x2 + k} of length {L} needs cell-to-cell ratio {r:.3g}"
     obs["unrealisable"] = unreal
+    # a preserved size that fits only with an extreme cell-to-cell ratio: the library may or may not find it
+    obs["extreme"] = extreme if unreal is None else None
     if res["outcome"] == "ok":
         obs["hex"] = parse_hex_lines(res["text"])
         obs["text_sha"] = __import__("hashlib").sha1(res["text"].encode()).hexdigest()
@@ -743,7 +791,7 @@ def oracle_preserve(case: dict, obs: dict) -> List[dict]:
             cs = block_corners(asm, asm["blocks"][b])
             p = AXIS_PAIRS[e["a"]][e["k"]]
             c0, c1 = cs[p[0]], cs[p[1]]
-            L = math.dist(lattice_point(asm, c0), lattice_point(asm, c1))
+            L = obs["internals"]["lens"][12 * e["b"] + 4 * e["a"] + e["k"]]  # curve length of the edge
             first, last = first_last_size(L, e["count"], e["secs"][0][2])
             at_start_vertex = first if known[frozenset((c0, c1))] == c0 else last
             at_end_vertex = last if known[frozenset((c0, c1))] == c0 else first
